@@ -465,7 +465,18 @@ class Executor:
             if pol == 'inline':
                 return self.apply(f.node, None, f.mod, args, kwargs, f.qualname)
             if callable(pol):
-                return pol(self, f, args, kwargs)
+                # a contract's stand-in for the callee reads its arguments by position or by name: hand it both views, however the call was
+                # written (keyword arguments that continue the positional prefix of the real signature are also given positionally)
+                a_ = f.node.args
+                names = [x.arg for x in a_.posonlyargs + a_.args]
+                pos = list(args)
+                if not a_.vararg and len(pos) <= len(names):
+                    for n in names[len(pos):]:
+                        if n in kwargs:
+                            pos.append(kwargs[n])
+                        else:
+                            break
+                return pol(self, f, pos, kwargs)
             return self.abstract_call(f, args, kwargs)
         if isinstance(f, (Tm, ClassRef)):
             return self.abstract_call(f, args, kwargs)
